@@ -324,7 +324,52 @@ func (x *Exec) loopEnter(st *State, fi int, li *loopInfo, from *ssa.BasicBlock) 
 	}
 	fr.loopMods = cloneLoopMods(fr.loopMods)
 	fr.loopMods[li.ord] = modObjs
+	// phis at the loop header (NaiveForm: the hidden index of a range over a
+	// slice/array/string) take an arbitrary value at an arbitrary iteration.
+	ov := map[*ssa.Phi]Value{}
+	for k, v := range fr.phiOv {
+		ov[k] = v
+	}
+	for _, in := range li.header.Instrs {
+		phi, ok := in.(*ssa.Phi)
+		if !ok {
+			break
+		}
+		nv := x.freshValue(st, "loop.phi."+phi.Comment, phi.Type())
+		if isRangeIndexPhi(phi) {
+			// starts at -1 and only ever grows by one per iteration
+			st.assume(Le(IntLit(-1), nv.T))
+		}
+		ov[phi] = nv
+	}
+	fr.phiOv = ov
 	x.execFrom(st, fi, li.header, 0, from)
+}
+
+// isRangeIndexPhi recognises the builder's range-over-slice index:
+// phi [entry: -1, back edge: phi + 1].
+func isRangeIndexPhi(phi *ssa.Phi) bool {
+	if len(phi.Edges) != 2 {
+		return false
+	}
+	var init *ssa.Const
+	var step *ssa.BinOp
+	for _, e := range phi.Edges {
+		switch t := e.(type) {
+		case *ssa.Const:
+			init = t
+		case *ssa.BinOp:
+			step = t
+		}
+	}
+	if init == nil || step == nil || init.Value == nil || init.Value.ExactString() != "-1" {
+		return false
+	}
+	if step.Op != token.ADD || step.X != ssa.Value(phi) {
+		return false
+	}
+	c, ok := step.Y.(*ssa.Const)
+	return ok && c.Value != nil && c.Value.ExactString() == "1"
 }
 
 func cloneLoopMods(m map[int]map[string][]Term) map[int]map[string][]Term {
